@@ -87,17 +87,47 @@ func VP_C18_RateModelShape() {
 		zzvp.Assert(r1.Equal(base), "rate-at-zero-utilisation-is-the-base-rate")
 	}
 	if !stable {
-		// at the grid utilisations (concrete evaluation) in both tiers; for an arbitrary utilisation in the thorough tier
-		// only (two chained decimal products of three symbolic factors: undecided at the 60 s cap on 6 of 24 instances)
+		// at the grid utilisations (concrete evaluation); for an arbitrary utilisation: VP_C18_LendRateBelowBorrowRate
 		l1, e3 := k.GetLendAPRByAssetIDAndPoolID(ctx, 1, assetID)
 		if e3 == nil {
 			zzvp.Assert(l1.LTE(r1), "lend-rate-never-above-borrow-rate(grid)")
 		}
-		if zzvp.Thorough() {
-			l2, e4 := k.GetLendAPRByAssetIDAndPoolID(ctx, 2, assetID)
-			if e4 == nil {
-				zzvp.Assert(l2.LTE(r2), "lend-rate-never-above-borrow-rate")
-			}
-		}
 	}
+}
+
+// C18 (rate model), thorough tier only: the lend rate never exceeds the variable borrow rate for an ARBITRARY
+// utilisation (two chained decimal products of three symbolic factors: undecided at the quick tier's 60 s cap on 6 of 24
+// instances, hence thorough only; kept apart from VP_C18_RateModelShape so that its definitions do not burden the
+// other queries of that path).
+func VP_C18_LendRateBelowBorrowRate() {
+	if !zzvp.Thorough() {
+		zzvp.Option("thorough-only")
+		return
+	}
+	zzvp.Option("overflow-as-obligation")
+	var k Keeper
+	zzvp.Wire(&k)
+	var ak assetkeeper.Keeper
+	zzvp.Wire(&ak)
+	ctx := zzvp.ClosedCtx()
+	p := vpRateGrid[zzvp.Choose(len(vpRateGrid))]
+	const assetID = 7
+	denom := "vpdenom"
+	ak.SetAsset(ctx, assettypes.Asset{Id: assetID, Name: "VP", Denom: denom, Decimals: sdk.NewInt(1000000)})
+	D := sdk.MustNewDecFromStr
+	k.SetAssetRatesParams(ctx, types.AssetRatesParams{AssetID: assetID, UOptimal: D(p.uopt), Base: D(p.base), Slope1: D(p.s1), Slope2: D(p.s2), EnableStableBorrow: true,
+		StableBase: D(p.sbase), StableSlope1: D(p.ss1), StableSlope2: D(p.ss2), ReserveFactor: D(p.reserve),
+		Ltv: sdk.ZeroDec(), LiquidationThreshold: sdk.ZeroDec(), LiquidationPenalty: sdk.ZeroDec(), LiquidationBonus: sdk.ZeroDec(),
+		ELtv: sdk.ZeroDec(), ELiquidationThreshold: sdk.ZeroDec(), ELiquidationPenalty: sdk.ZeroDec()})
+	cash, bor := zzvp.AnySdkInt(), zzvp.AnySdkInt()
+	lim := sdk.NewInt(1000000000)
+	zzvp.Assume(zzvp.And(!cash.IsNegative(), !bor.IsNegative(), cash.LTE(lim), bor.LTE(lim), cash.Add(bor).IsPositive()))
+	vpRateWorld(p, 2, cash, bor, sdk.ZeroInt(), k, ak, ctx, assetID, denom)
+	r2, e2 := k.GetBorrowAPRByAssetID(ctx, 2, assetID, false)
+	l2, e4 := k.GetLendAPRByAssetIDAndPoolID(ctx, 2, assetID)
+	if e2 != nil || e4 != nil {
+		return
+	}
+	zzvp.Reach("both-rates-computed")
+	zzvp.Assert(l2.LTE(r2), "lend-rate-never-above-borrow-rate")
 }
